@@ -36,6 +36,11 @@ def _replay(args):
     df = design.materialize(frame, variant, style)
     d = case["d"]
     policy = case["policy"]
+    if "@" in case["txt"]:
+        # subset notation: @k is the name of level k of the variant's pool (a code beyond the pool: a level that never occurs)
+        import re
+
+        case = dict(case, txt=re.sub(r"@(\d)", lambda m: repr(names[int(m.group(1)) - 1] if int(m.group(1)) <= len(names) else "zzz_none"), case["txt"]))
     base = {"formula": case["txt"], "frame": frame, "policy": policy, "variant": variant, "style": style, "phase": case["phase"], "opn": case["opn"]}
     out = []  # (props, sig, casedata)
     ood = 0
